@@ -255,14 +255,14 @@ def model(node, vals, ended):
 # in creation order; completions happen in list order for equal end points
 # ---------------------------------------------------------------------------
 
-def wmodel(node, vals):
+def wmodel(node, vals, keys=None):
     op = node['op']
     n = len(vals)
     if op == 'group_by':
         kf = F.KEYS[node['key']][0]
         groups = []   # (key, create_idx, idxs)
         for i, v in enumerate(vals):
-            k = kf(v)
+            k = keys[i] if keys is not None else kf(v)
             for g in groups:
                 if g[0] == k:
                     g[2].append(i)
@@ -296,7 +296,7 @@ def wmodel(node, vals):
         return out
     if op == 'time_split':
         A, I = node.get('active'), node.get('inactive')
-        closing, include = bool(node.get('closing')), bool(node.get('include', True))
+        closing, include = bool(node.get('closing')), node.get('include', True) is True or node.get('include') == 'incl-any'
         out = []
         cur = None
         ref = last = None
@@ -395,18 +395,37 @@ def check_window(node, path, i, in_tap, out_tap, ctx, findings):
         findings.append(Finding('window-protocol', op, path, {'problems': sp[:5]}))
         return
     used = 0
+    recorded = None
+    if op == 'group_by' and node.get('key') == 'rr3':
+        # impure key mapper: its recorded answers, one per item in arrival order (a mapper asked twice for one item, or
+        # not at all, shows up as a different number of answers than items)
+        calls = ctx.extra.get('keycalls', {}).get('%s/%d' % (path, i), [])
+        arrivals = sorted((g, P.key) for P in parents for g, _, _ in P.items)
+        if len(calls) != len(arrivals):
+            findings.append(Finding('window-items', op, path, {'node': _strip(node), 'note': 'key_mapper was called %d times for %d items' % (
+                len(calls), len(arrivals))}))
+            return
+        recorded = dict((g, calls[n]) for n, (g, _) in enumerate(arrivals))
     for P in parents:
         if P.errors:
             continue
         mine = [s for s in subs if s.key[1] == P.key and s.cg > P.cg and (P.eg is None or s.cg < P.eg)]
         used += len(mine)
         vals = [decanon(v) for _, _, v in P.items]
-        exp = wmodel(node, vals)
+        exp = wmodel(node, vals, [recorded[g] for g, _, _ in P.items] if recorded is not None else None)
         ended = P.eg is not None
         if op == 'time_split':
             # the text constrains which window each item belongs to; empty windows are implementation detail
             exp = [e for e in exp if e[1]]
             mine = [s for s in mine if s.items]
+            if node.get('closing') and node.get('include', True) not in (True, False):
+                # the flag was given as 1 / 0 / numpy.True_: whether that counts as "include" is not specified, but
+                # every item must still be in exactly one window, in order
+                flat = [v for s in mine for v in s.values()]
+                if flat != [v for _, _, v in P.items]:
+                    findings.append(Finding('window-items', op, path, {'node': _strip(node), 'note': 'non-bool include flag: partition only',
+                                                                       'input': [v for _, _, v in P.items], 'windows': [s.values() for s in mine]}))
+                continue
         ei = [[P.items[j][2] for j in idxs] for _, idxs, _ in exp]
         gi = [s.values() for s in mine]
         if ei != gi:
